@@ -72,6 +72,13 @@ struct Model {
   acetime_t read(uint64_t now) const { return init ? (acetime_t) (T + (int64_t) ((now - m0) / 1000)) : kInv; }
 };
 
+// a reference clock that can be read but not set (an NTP-like source): Clock::setNow() is the inherited no-op
+class ReadOnlyClock: public Clock {
+  public:
+    acetime_t value = Clock::kInvalidSeconds;
+    acetime_t getNow() const override { return value; }
+};
+
 static void c13_schedules(int shard, long long seed, long long nsteps) {
   Rng rng(seed * 1000 + shard);
   long long done = 0;
@@ -81,8 +88,10 @@ static void c13_schedules(int shard, long long seed, long long nsteps) {
     static const uint32_t bases[6] = {0u, 0xFFFFFF00u, 0xFFFF0000u, 0x0000FF00u, 0x7FFFFFF0u, 0xFFFF8000u};
     g_base = bases[rng.below(6)] + rng.below(2000); g_true_ms = 0;
     testing::FakeClock backup, reference;
-    int cfg = rng.below(4);   // 0: none, 1: distinct backup, 2: backup==reference, 3: reference only
-    Clock* refp = (cfg == 2 || cfg == 3) ? &reference : nullptr;
+    ReadOnlyClock ro;
+    ro.value = rng.below(2) ? kInv : (acetime_t) rng.range(1, 1500000000);     // unreachable, or reporting some other time
+    int cfg = rng.below(5);   // 0: none, 1: distinct backup, 2: backup==reference, 3: reference only, 4: read-only reference
+    Clock* refp = (cfg == 2 || cfg == 3) ? (Clock*) &reference : (cfg == 4 ? (Clock*) &ro : nullptr);
     Clock* bakp = (cfg == 1) ? (Clock*) &backup : (cfg == 2 ? (Clock*) &reference : nullptr);
     TClock c(refp, bakp);
     Model S, F;
@@ -156,12 +165,13 @@ static void c13_schedules(int shard, long long seed, long long nsteps) {
         lastSync = v;
         have_last = false;
         if (c.getLastSyncTime() != v) { J j; j.str("trace", trace); witness("c13:lastSyncTime-wrong", "getLastSyncTime != last value set", j); }
-        if (refp && reference.getNow() != v) { J j; j.str("trace", trace); witness("c13:reference-not-set", "setNow did not propagate to the reference clock", j); }
+        if (refp && cfg != 4 && reference.getNow() != v) { J j; j.str("trace", trace); witness("c13:reference-not-set", "setNow did not propagate to the reference clock", j); }
+        if (cfg == 4) CNT.add("c13.sets_with_read_only_reference");
       } else if (op == 18 && refp && rng.below(2)) {
         // forceSync(): read the reference clock now and set the system clock from it
         acetime_t v = (acetime_t) rng.range(0, 1500000000);
         acetime_t cached = c.cached();
-        reference.setNow(v);
+        if (cfg == 4) ro.value = v; else reference.setNow(v);
         c.forceSync();
         CNT.add("c13.force_syncs");
         snprintf(tb, sizeof tb, "+%u forceSync(ref=%d)%s;", gap, v, cached == v ? "[=cached]" : ""); if (trace.size() < 1500) trace += tb;
